@@ -49,9 +49,11 @@ template <class S> struct Ref {
   static V matmul(const V& a, const V& b) { V o(9); for (int i = 0; i < 3; i++) for (int j = 0; j < 3; j++) o[3 * i + j] = D(a, i, 0) * D(b, 0, j) + D(a, i, 1) * D(b, 1, j) + D(a, i, 2) * D(b, 2, j); return o; }
   static V magsq(const V& a) { S s = S(0); for (auto& x : a) s = s + x * x; return V{s}; }
   static V sym6(const V& a) { return V{a[0], a[1], a[2], a[4], a[5], a[8]}; }
+  static V scale(const V& a, const S& k) { V o; for (auto& x : a) o.push_back(x * k); return o; }
 };
 // scalar carrying value and magnitude sum (for error scales)
 struct Tr { __float128 v, m; Tr() : v(0), m(0) {} Tr(int x) : v(x), m(x < 0 ? -x : x) {} Tr(__float128 x) : v(x), m(fabsq(x)) {} Tr(__float128 x, __float128 y) : v(x), m(y) {} };
+inline bool operator==(const Tr& a, int z) { return a.v == z; }
 inline Tr operator+(const Tr& a, const Tr& b) { return Tr(a.v + b.v, a.m + b.m); }
 inline Tr operator-(const Tr& a, const Tr& b) { return Tr(a.v - b.v, a.m + b.m); }
 inline Tr operator*(const Tr& a, const Tr& b) { return Tr(a.v * b.v, a.m * b.m); }
@@ -129,6 +131,19 @@ template <class T> std::vector<Op<T>> ops() {
   o.push_back({"pdir_dyadic_pv", 2, 2, true, [](const Vv& a, const Vv& b) { return C(PDIR(b).Dyadic(PV(a))); }, REF2(R::dyadic(R::planar(b), R::planar(a)))});
   o.push_back({"pdir_dyadic_pdir", 2, 2, true, [](const Vv&, const Vv& b) { return C(PDIR(b).Dyadic(PlanarDirection<T>(b[1], b[0]))); }, REF2(R::dyadic(R::planar(b), R::planar(std::vector<std::decay_t<decltype(b[0])>>{b[1], b[0]})))});
   o.push_back({"sd_transpose", 6, 0, false, [](const Vv& a, const Vv&) { return C(SD(a).Transpose()); }, REF2(a)});
+  // scaling: shape * number, number * shape, shape / number and the compound forms, with the number in the shape's own type and as an int
+  // (operand b is the number k, 3 when the grid gives 0; the division forms divide k * a by k and must give back a exactly)
+#define KK(b) ((b)[0] == 0 ? (decltype((b)[0]))3 : (b)[0])
+#define SCALE_OPS(P, MK, NC) \
+  o.push_back({P "_scale", NC, 1, false, [](const Vv& a, const Vv& b) { return C(MK(a) * KK(b)); }, REF2(R::scale(a, KK(b)))}); \
+  o.push_back({P "_scale_left", NC, 1, false, [](const Vv& a, const Vv& b) { return C(KK(b) * MK(a)); }, REF2(R::scale(a, KK(b)))}); \
+  o.push_back({P "_scale_int", NC, 1, false, [](const Vv& a, const Vv& b) { return C(MK(a) * (int)KK(b)); }, REF2(R::scale(a, KK(b)))}); \
+  o.push_back({P "_muleq", NC, 1, false, [](const Vv& a, const Vv& b) { auto t = MK(a); t *= KK(b); return C(t); }, REF2(R::scale(a, KK(b)))}); \
+  o.push_back({P "_div", NC, 1, false, [](const Vv& a, const Vv& b) { return C((MK(a) * KK(b)) / KK(b)); }, REF2(a)}); \
+  o.push_back({P "_div_int", NC, 1, false, [](const Vv& a, const Vv& b) { return C((MK(a) * KK(b)) / (int)KK(b)); }, REF2(a)}); \
+  o.push_back({P "_diveq", NC, 1, false, [](const Vv& a, const Vv& b) { auto t = MK(a) * KK(b); t /= KK(b); return C(t); }, REF2(a)}); \
+  o.push_back({P "_diveq_int", NC, 1, false, [](const Vv& a, const Vv& b) { auto t = MK(a) * KK(b); t /= (int)KK(b); return C(t); }, REF2(a)});
+  SCALE_OPS("pv", PV, 2) SCALE_OPS("v", V3, 3) SCALE_OPS("sd", SD, 6) SCALE_OPS("d", DY, 9)
   return o;
 }
 
@@ -181,7 +196,7 @@ template <class T> static double ulps_scaled(T got, __float128 want, __float128 
 template <class T> static void real_all(uint64_t seed, int n) {
   std::mt19937_64 g(seed); auto os = ops<T>();
   auto rv = [&](int k, int ex) { std::vector<T> v(k); for (auto& x : v) { T m = (T)(1.0L + (long double)(g() >> 11) / (long double)(1ULL << 53)); x = std::ldexp(m, ex + (int)(g() % 5) - 2) * ((g() & 1) ? 1 : -1); } return v; };
-  for (auto& op : os) { double worst = 0; long cnt = 0; long double wit = 0;
+  for (auto& op : os) { double worst = 0; long cnt = 0; long double wit = 0; { std::string nm(op.name); if (nm.size() > 4 && nm.compare(nm.size() - 4, 4, "_int") == 0) continue; }   // a number passed as int is meaningful on integer inputs only
     for (int t = 0; t < n; t++) { int ex = (int)(g() % 41) - 20; std::vector<T> a = rv(op.na, ex), b;
       if (op.nb) { if (op.b_is_axis) { b.assign(op.nb, 0); b[g() % op.nb] = (g() & 1) ? 1 : -1; } else b = rv(op.nb, (int)(g() % 41) - 20); }
       std::vector<T> got = op.impl(a, b); std::vector<Tr> ra, rb; for (T x : a) ra.push_back(Tr((__float128)x)); for (T x : b) rb.push_back(Tr((__float128)x));
